@@ -169,7 +169,7 @@ func c32Agree(id string, b []byte) {
 	}
 }
 
-func VerifC32Agree() {
+func VerifC32UnquoteAgree() {
 	n := nd.IntRange("n", 0, nd.Bound(5, 6))
 	c32Agree("c32.agree", nd.Bytes("b", n))
 }
@@ -197,12 +197,15 @@ func c32UnquoteBytesEscape(np, nt int) {
 	nd.Observe(u, err == nil)
 }
 
-func VerifC32UnquoteEscape00()      { c32UnquoteEscape(0, 0) }
-func VerifC32UnquoteEscape01()      { c32UnquoteEscape(0, 1) }
-func VerifC32UnquoteEscape10()      { c32UnquoteEscape(1, 0) }
-func VerifC32UnquoteBytesEscape00() { c32UnquoteBytesEscape(0, 0) }
-func VerifC32UnquoteBytesEscape01() { c32UnquoteBytesEscape(0, 1) }
-func VerifC32UnquoteBytesEscape10() { c32UnquoteBytesEscape(1, 0) }
-func VerifC32AgreeEscape00()        { c32Agree("c32.agree.escape", c32Escape(0, 0)) }
-func VerifC32AgreeEscape01()        { c32Agree("c32.agree.escape", c32Escape(0, 1)) }
-func VerifC32AgreeEscape10()        { c32Agree("c32.agree.escape", c32Escape(1, 0)) }
+// Naming: the engine explores harnesses of one package on a shared pool in
+// reverse name order and solver definitions linger; the Escape harnesses
+// (symbolic hex-table lookups, seconds per query) sort first so they run last.
+func VerifC32EscapeAgree00()        { c32Agree("c32.agree.escape", c32Escape(0, 0)) }
+func VerifC32EscapeAgree01()        { c32Agree("c32.agree.escape", c32Escape(0, 1)) }
+func VerifC32EscapeAgree10()        { c32Agree("c32.agree.escape", c32Escape(1, 0)) }
+func VerifC32EscapeUnquote00()      { c32UnquoteEscape(0, 0) }
+func VerifC32EscapeUnquote01()      { c32UnquoteEscape(0, 1) }
+func VerifC32EscapeUnquote10()      { c32UnquoteEscape(1, 0) }
+func VerifC32EscapeUnquoteBytes00() { c32UnquoteBytesEscape(0, 0) }
+func VerifC32EscapeUnquoteBytes01() { c32UnquoteBytesEscape(0, 1) }
+func VerifC32EscapeUnquoteBytes10() { c32UnquoteBytesEscape(1, 0) }
